@@ -156,6 +156,7 @@ func allChecksRaw() []*Check {
 				{Name: "C13.wide", Pkg: "gtree", Entry: "VerifWide", N: 0, RealParse: true, Expect: []string{"Wide.add.same", "Wide.md.text/iter", "Wide.md.text/noiter", "Wide.prog.text", "Wide.prog.walk", "Wide.end"}},
 				gjf("C13.hist.n4", "VerifC13", 4, "C13.add", "C13.fn", "C13.idem", "C13.md", "C13.md.fails", "C13.nil", "C13.end"),
 				gjf("C13.hist.n3.dryrun", "VerifC13", 103, "C13.add", "C13.fresh", "C13.idem", "C13.end"),
+				gjf("C13.hist.n3.massivejson", "VerifC13", 203, "C13.add", "C13.fn", "C13.fresh", "C13.idem", "C13.nil", "C13.end"),
 				gjf("C13.hist.n2.emptynames", "VerifC13", 12, "C13.add", "C13.fn", "C13.idem", "C13.end"),
 				{Name: "C13.conc.wyield", Pkg: "gtree", Entry: "VerifC13Conc", RealParse: true, RealScan: true, Race: true, RaceConfirm: "VerifC13Stress", Sched: "fifo-wyield", Expect: []string{"C13.conc.same", "C13.conc.noleak", "C13.conc.end"}},
 				{Name: "C13.md.n2", Pkg: "gtree", Entry: "VerifC13Md", N: 2, RealParse: true, Expect: []string{"C13.md.nil", "C13.md.same", "C13.md.noleak", "C13.md.end"}},
@@ -166,8 +167,10 @@ func allChecksRaw() []*Check {
 				{Name: "C13.md.n3", Pkg: "gtree", Entry: "VerifC13Md", N: 3, RealParse: true, Expect: []string{"C13.md.nil", "C13.md.same", "C13.md.noleak", "C13.md.end"}},
 				{Name: "C13.md.n2.lifo", Pkg: "gtree", Entry: "VerifC13Md", N: 2, RealParse: true, Sched: "lifo", Expect: []string{"C13.md.nil", "C13.md.same", "C13.md.noleak", "C13.md.end"}},
 				{Name: "C13.conc.rnd8", Pkg: "gtree", Entry: "VerifC13Conc", RealParse: true, RealScan: true, Race: true, RaceConfirm: "VerifC13Stress", Sched: "rnd8", Expect: []string{"C13.conc.same", "C13.conc.noleak", "C13.conc.end"}},
-				gjf("C13.hist.n5", "VerifC13", 5, "C13.add", "C13.fn", "C13.idem", "C13.md", "C13.md.fails", "C13.nil", "C13.end"),
+				gjf("C13.hist.n5", "VerifC13", 5, "C13.add", "C13.fn", "C13.idem", "C13.md", "C13.nil", "C13.end"),
+				gjf("C13.hist.n4", "VerifC13", 4, "C13.add", "C13.fn", "C13.idem", "C13.md", "C13.md.fails", "C13.nil", "C13.end"),
 				gjf("C13.hist.n4.dryrun", "VerifC13", 104, "C13.add", "C13.fresh", "C13.idem", "C13.end"),
+				gjf("C13.hist.n4.massivejson", "VerifC13", 204, "C13.add", "C13.fn", "C13.fresh", "C13.idem", "C13.nil", "C13.end"),
 				gjf("C13.hist.n4.emptynames", "VerifC13", 14, "C13.add", "C13.fn", "C13.idem", "C13.end"),
 			},
 			Bounds: "sequential histories of N steps (quick 4, thorough 5) plus a final operation on every live tree, over at most two live trees: Add on any node of any tree, creation of the second tree, an unrelated From-Markdown call, a From-Root operation (one kind per history: text, callback walk, iterator walk on an iterator made when the tree was made, JSON; in a job of their own the dry-run report and the dry run combined with an encode option) executed twice in a row, a text output in between whatever the history's kind is; every result also equals the result on a freshly built copy of the tree (C13.fresh); names are opaque single path elements, in a second job each name may also be the empty string (NewRoot(\"\")/Add(\"\") are legal). Concurrent use (VerifC13Conc): two goroutines run one library call each at the same time on inputs of their own -- 8 kinds each (From-Markdown text on both simple routes, walk, massive text, dry-run; From-Root text, custom-branch text and walk, each building its tree first), one arbitrary name byte each; real bufio.Scanner / strings.Reader / parser, a model of sync.Pool; write-yield schedules (and LIFO, 8 pseudo-random ones in the thorough tier): each result equals the call's result when run alone, and the happens-before detector finds no pair of unsynchronised conflicting accesses in library code (which does not depend on the schedule explored). Sequential From-Markdown histories (VerifC13Md): 2 (quick) / 3 (thorough) massive-mode calls one after the other, each on a document in a notation of its own (tabs / one blank / two blanks, list or # roots, bullet symbols): nil and the simple mode's blocks every time (pooled or otherwise kept pipeline state must not show). Outside: more than two concurrent calls, mkdir/verify as concurrent or history steps, longer histories.",
